@@ -7,7 +7,11 @@ applied in a scratch worktree of /repo (/root/scratch/seedrepo) and the checks r
 (The registered checks themselves always use /repo; this isolation is only for the detection experiments.)"""
 import subprocess, sys, os, json
 ROOT = os.path.dirname(os.path.dirname(os.path.abspath(__file__)))
-REPO2, VERIF2 = "/root/scratch/seedrepo", "/root/scratch/seedverif"
+# one scratch pair per checkout of /verif (agents run this from their own worktrees concurrently), serialised by a lock
+_tag = "" if ROOT == "/verif" else "-" + os.path.basename(ROOT)
+REPO2, VERIF2 = "/root/scratch/seedrepo" + _tag, "/root/scratch/seedverif" + _tag
+import fcntl
+_lock = open("/root/scratch/.seedtest%s.lock" % _tag, "w"); fcntl.flock(_lock, fcntl.LOCK_EX)
 patch, props = os.path.abspath(sys.argv[1]), sys.argv[2:]
 def sh(cmd, **kw): return subprocess.run(cmd, capture_output=True, text=True, **kw)
 head = sh(["git", "-C", "/repo", "rev-parse", "HEAD"]).stdout.strip()
